@@ -142,6 +142,32 @@ Definition assoc_lookup {V} (k : gostr) (order : list (gostr * V)) : option V :=
 Definition named_args_final {V} (declared : list gostr) (submitted : list (gostr * V)) : list (option V) :=
   map (fun d => assoc_lookup d submitted) declared.
 
+Definition first_offender_walk_aux {V} (tyof : V -> Z) (declared : list (gostr * Z)) (submitted : list (gostr * V)) : option gostr :=
+  option_map fst (find (fun sv => match assoc_lookup (fst sv) declared with
+                                  | Some t => negb (Z.eqb (tyof (snd sv)) t)
+                                  | None => false
+                                  end) submitted).
+
+(* check.go:FunctionCallNameTypeCheck, call by name, as it is: the arguments are PLACED first
+   (finalArgs, declared order), then checked positionally; the error "type mismatch for parameter
+   'p'" names the first DECLARED parameter whose argument has another type than declared.
+   declared = (name, type code); tyof = the type code of a value. *)
+Definition named_args_check {V} (tyof : V -> Z) (declared : list (gostr * Z)) (submitted : list (gostr * V))
+  : gostr + list (option V) :=
+  let final := named_args_final (map fst declared) submitted in
+  match find (fun dv => match snd dv with
+                        | Some v => negb (Z.eqb (tyof v) (snd (fst dv)))
+                        | None => false
+                        end) (combine declared final) with
+  | Some (d, _) => inl (fst d)
+  | None => inr final
+  end.
+
+(* the same check done while RANGING over the submitted map (first offender in walk order) *)
+Definition named_args_check_in_walk_order {V} (tyof : V -> Z) (declared : list (gostr * Z)) (submitted : list (gostr * V))
+  : option gostr :=
+  first_offender_walk_aux tyof declared submitted.
+
 (* ------------------------------------------------------------------------------------ *)
 (* Walks that leave at the first offender (class EarlyExitFirstMatch): which offender is named
    depends on the order -- unless the keys are sorted first.  `first_offender_sorted` is the
